@@ -11,7 +11,7 @@
 //!       <edits>: `-` or comma separated  s<off>:<hex> overwrite | x<off>:<hex> xor | t<len> truncate |
 //!       a<hex> append | d<off>:<len> delete | i<off>:<hex> insert | r<off>:<len>:<hex> replace range.
 //!       output `<parse> <front> <deep>` (the Lean driver answers `-`: exploration only).
-//!   raw x <label> <vcfg> <field> <hasher> <e> <main degs> <aux degs> <#main asserts> <#aux asserts> <lagrange 0|1> <hex>
+//!   raw x <label> <vcfg> <field> <hasher> <e> <main degs> <aux degs> <#main asserts> <#aux asserts> <aux width of the AIR> <lagrange 0|1> <hex>
 //!       the same on literal bytes, mode c; the AIR parameters on the line are those of <vcfg> (checked)
 //!       and are what the Lean model (Winter/Model/Parse.lean) needs: output `<parse>[ <front>]`, compared
 //!       with the model.
@@ -338,12 +338,12 @@ fn air_params(b: &Base) -> String {
             .join(",")
     }
     let d = &b.desc;
-    let (adegs, naa, lag) = match &d.aux {
-        None => ("-".to_string(), 0, 0),
-        Some(x) => (degs(&x.constraints), x.assertions.len(), x.lagrange as usize),
+    let (adegs, naa, aw, lag) = match &d.aux {
+        None => ("-".to_string(), 0, 0, 0),
+        Some(x) => (degs(&x.constraints), x.assertions.len(), x.width, x.lagrange as usize),
     };
     format!(
-        "{} {} {} {} {} {} {} {}",
+        "{} {} {} {} {} {} {} {} {}",
         b.cfg.field.name(),
         b.cfg.hash.name(),
         d.exemptions,
@@ -351,6 +351,7 @@ fn air_params(b: &Base) -> String {
         adegs,
         d.assertions.len(),
         naa,
+        aw,
         lag
     )
 }
@@ -749,18 +750,18 @@ fn exec_mut(t: &[&str]) -> Outcome {
 }
 
 fn exec_raw(t: &[&str]) -> Outcome {
-    // x <label> <vcfg> <field> <hash> <e> <mdegs> <adegs> <nma> <naa> <lag> <hex>
-    if t.len() != 12 {
+    // x <label> <vcfg> <field> <hash> <e> <mdegs> <adegs> <nma> <naa> <aux width> <lag> <hex>
+    if t.len() != 13 {
         return Outcome::ok("bad-op");
     }
     let vb = match base(t[2]) {
         Ok(b) => b,
         Err(e) => return Outcome::ok("bad-base").fail("c06.harness.base", e),
     };
-    if air_params(&vb) != t[3..11].join(" ") {
+    if air_params(&vb) != t[3..12].join(" ") {
         return Outcome::ok("bad-op");
     }
-    let bytes = unhex(t[11]);
+    let bytes = unhex(t[12]);
     into_outcome(run_case(&bytes, Some(&vb), "c"), false)
 }
 
@@ -842,7 +843,7 @@ fn gen_for(g: &mut Gen, rng: &mut Rng, b: &Base, tier: Tier, small: bool, others
         for v in field_values(f, orig, thorough) {
             let e = format!("s{}:{}", f.off, le_hex(v, f.len));
             let label = format!("field:{}", f.name.replace(|c: char| c.is_ascii_digit(), "#"));
-            g.case(&label, b, name, "c", &e, true);
+            g.case(&label, b, name, "c", &e, f.len > 1 || v < 4 || v % 3 == 0 || v > 250);
             if v % 5 == 0 {
                 g.case(&label, b, name, if v % 2 == 0 { "p" } else { "o" }, &e, false);
             }
@@ -1029,7 +1030,8 @@ impl Prop for P {
                 Err(e) => emit(format!("mut x base-failed {} - c -", c.name)),
             }
         }
-        let mut g = Gen { emit, raw_budget: if tier == Tier::Thorough { 60_000 } else { 9_000 } };
+        let per_cfg = if tier == Tier::Thorough { 8_000 } else { 1_600 };
+        let mut g = Gen { emit, raw_budget: 200 };
         // purely hostile strings: empty, short, random, all-equal bytes
         for k in 0..64usize {
             let z = vec![0u8; k];
@@ -1045,6 +1047,7 @@ impl Prop for P {
             // the two smallest configurations get the full single-byte treatment
             let small = b.cfg.name == "sq8rp" || b.cfg.name == "fib62q";
             let mut r = rng.fork();
+            g.raw_budget = per_cfg;
             gen_for(&mut g, &mut r, b, tier, small, &bases);
         }
     }
